@@ -260,3 +260,54 @@ Example proc_blocks_example :
   = [ {| w_row := 2; w_col := -1; w_h := 3; w_w := 2 |}; {| w_row := 2; w_col := 1; w_h := 3; w_w := 2 |};
       {| w_row := 5; w_col := -1; w_h := 2; w_w := 2 |}; {| w_row := 5; w_col := 1; w_h := 2; w_w := 2 |} ].
 Proof. reflexivity. Qed.
+
+(* ---------------------------------------------------------------- auto block shape: within the window, at least a pixel, memory bound met *)
+From Coq Require Import QArith Lqa.
+Open Scope Z_scope.
+Lemma halve_loop_bounds fuel (h w maxb h' w' : Q) : (0 < h)%Q -> (0 < w)%Q ->
+  halve_loop fuel h w maxb = Some (h', w') -> (0 < h' /\ h' <= h /\ 0 < w' /\ w' <= w /\ h' * w' * 4 <= maxb)%Q.
+Proof.
+  revert h w. induction fuel as [|f IH]; intros h w Hh Hw; cbn [halve_loop].
+  - destruct (Qle_bool (h * w * 4) maxb) eqn:E; [|discriminate]. intros H; inversion H; subst.
+    apply Qle_bool_iff in E. repeat split; try lra; assumption.
+  - destruct (Qle_bool (h * w * 4) maxb) eqn:E.
+    + intros H; inversion H; subst. apply Qle_bool_iff in E. repeat split; try lra; assumption.
+    + destruct (Qle_bool w h).
+      * intros H. assert (Hh2 : (0 < h / 2)%Q) by (apply Qlt_shift_div_l; lra).
+        destruct (IH (h / 2)%Q w Hh2 Hw H) as (A & B & C & D & F). repeat split; try assumption.
+        assert ((h / 2 <= h)%Q) by (apply Qle_shift_div_r; lra). lra.
+      * intros H. assert (Hw2 : (0 < w / 2)%Q) by (apply Qlt_shift_div_l; lra).
+        destruct (IH h (w / 2)%Q Hh Hw2 H) as (A & B & C & D & F). repeat split; try assumption.
+        assert ((w / 2 <= w)%Q) by (apply Qle_shift_div_r; lra). lra.
+Qed.
+
+Lemma Qceil_bounds (q : Q) (n : Z) : (1 <= q)%Q -> (q <= inject_Z n)%Q -> 1 <= Qceil q <= n.
+Proof.
+  destruct q as [a b]. unfold Qceil, Qle, inject_Z. cbn [Qnum Qden]. intros H1 H2.
+  rewrite Z.mul_1_l, Z.mul_1_r in *.
+  pose proof (Z.div_mod (- a) (Z.pos b) ltac:(lia)) as Hd.
+  pose proof (Z.mod_pos_bound (- a) (Z.pos b) ltac:(lia)) as Hm.
+  split; nia.
+Qed.
+
+Theorem auto_block_shape_bounds h w maxb bh bw : 1 <= h -> 1 <= w ->
+  auto_block_shape h w maxb = Some (bh, bw) -> 1 <= bh <= h /\ 1 <= bw <= w.
+Proof.
+  intros Hh Hw. unfold auto_block_shape. destruct maxb as [mb|]; [|intros H; inversion H; subst; lia].
+  destruct (halve_loop 4000 (inject_Z h) (inject_Z w) mb) as [[qh qw]|] eqn:E; [|discriminate].
+  destruct (Qle_bool 1 qh && Qle_bool 1 qw) eqn:E1; [|discriminate]. intros H; inversion H; subst.
+  apply andb_true_iff in E1. destruct E1 as [A B]. apply Qle_bool_iff in A, B.
+  assert (P1 : (0 < inject_Z h)%Q) by (unfold Qlt, inject_Z; cbn; lia).
+  assert (P2 : (0 < inject_Z w)%Q) by (unfold Qlt, inject_Z; cbn; lia).
+  destruct (halve_loop_bounds _ _ _ _ _ _ P1 P2 E) as (_ & Lh & _ & Lw & _).
+  split; apply Qceil_bounds; assumption.
+Qed.
+(* before rounding up, the block meets the memory bound (max_block_mem scaled to bytes): h' * w' * 4 <= max bytes *)
+Theorem auto_block_shape_memory fuel h w mb qh qw : 1 <= h -> 1 <= w ->
+  halve_loop fuel (inject_Z h) (inject_Z w) mb = Some (qh, qw) -> (qh * qw * 4 <= mb)%Q.
+Proof.
+  intros Hh Hw E.
+  assert (P1 : (0 < inject_Z h)%Q) by (unfold Qlt, inject_Z; cbn; lia).
+  assert (P2 : (0 < inject_Z w)%Q) by (unfold Qlt, inject_Z; cbn; lia).
+  destruct (halve_loop_bounds _ _ _ _ _ _ P1 P2 E) as (_ & _ & _ & _ & M). exact M.
+Qed.
